@@ -317,3 +317,69 @@ def scenario(seed, family="mix", method="rotate", **kw):
     rng = random.Random(seed * 1000003 + sorted(WEIGHTS).index(family))
     m = METHODS[seed % 4] if method == "rotate" else method
     return Gen(rng, family, m, **kw).build()
+
+
+# ---------------------------------------------------------------- enumerated family: same-iteration retraction
+def _manips(v, F2):
+    """what the handler that runs first does to another object `v` that is due in the same iteration"""
+    clear = f"?setin {v} 0 ; ?setout {v} 0 ; ?seterr {v} 0"
+    return [
+        f"{clear} ; ?unreg {v}",                                   # handlers cleared first, then unregistered
+        f"{clear} ; ?unreg {v} ; free {v}",
+        f"{clear} ; ?unreg {v} ; free {v} ; init {v} ; ?reg {v} {F2}",
+        f"?unreg {v} ; ?reg {v} {F2}",                             # same struct re-registered at once
+        f"?unreg {v} ; free {v} ; init {v} ; ?reg {v} {F2}",
+        f"?unreg {v} ; free {v}",
+        f"?unreg {v}",
+        f"{clear} ; ?setin {v} 1",                                 # all bands dropped, one re-added
+        f"?setin {v} 0 ; ?setin {v} 1",
+        f"{clear}",
+    ]
+
+
+def retract_cases(seed):
+    """(C01/C02/C03) Enumerated, not sampled: several sources become due in ONE iteration (descriptors, a cross-thread iv_event,
+    an iv_event_raw); the handler that is dispatched first manipulates another source that was already collected for dispatch
+    (clear handlers / unregister / free / recycle / re-register the same struct), in both arrival orders, on all four methods.
+    Plus: a registration attempt that fails, after which the same struct (not re-initialised) is registered successfully."""
+    rng = random.Random(seed * 7907 + 3)
+    cases = []
+    for mi, m in enumerate(METHODS):
+        for first in ("fd", "event", "raw"):
+            for k in range(10):
+                for order in (0, 1):
+                    # order 0: nothing is ready before the stimuli, so the kernel reports in stimulus order
+                    F1 = rng.choice(["100", "101"]) if order == 0 else rng.choice(["100", "110", "101", "111"])
+                    F2 = rng.choice(["100", "110", "010", "111"])
+                    nf = rng.choice([2, 3, 4])
+                    L = ([f"exclude {m}"] if m else []) + ["cfg waitlimit=12 cblimit=200"]
+                    L += [f"obj fd f{i} sock" for i in range(nf)] + ["obj event e0", "obj raw r1", "obj timer t0"]
+                    for i in range(nf):
+                        L.append(f"on f{i}.in * : rd f{i}")
+                        L.append(f"on f{i}.out 3 : ?setout f{i} 0")
+                    wr = [f"wr f{i} 2" for i in range(nf)]
+                    if first == "fd":
+                        # whichever descriptor handler runs first hits a not-yet-dispatched neighbour
+                        for i in range(nf):
+                            L.append(f"on f{i}.in 1 : " + _manips(f"f{(i + 1) % nf}", F2)[k])
+                        stim = wr if order == 0 else wr[::-1]
+                    elif first == "event":
+                        L.append("on e0 1 : " + _manips(f"f{rng.randrange(nf)}", F2)[k])
+                        stim = (["xpost e0"] + wr) if order == 0 else (wr + ["xpost e0"])
+                    else:
+                        L.append("on r1 1 : " + _manips(f"f{rng.randrange(nf)}", F2)[k])
+                        stim = (["xrawpost r1"] + wr) if order == 0 else (wr + ["xrawpost r1"])
+                    L.append("at 0 : " + " ; ".join(stim))
+                    L.append("at 2 : " + " ; ".join(wr))
+                    L.append("on t0 1 : quit")
+                    L.append("do " + " ; ".join([f"reg f{i} {F1}" for i in range(nf)] + ["evreg e0", "rawreg r1", "trel t0 50000000"]))
+                    L.append("main")
+                    cases.append((f"retract-{METHOD_NAME[m]}-{first}-m{k}-o{order}", L))
+        # failed registration, then the same struct registered for real (with the same / other bands)
+        for k, (Fa, Fb) in enumerate([("100", "100"), ("110", "110"), ("111", "111"), ("000", "000"), ("100", "010"), ("010", "110")]):
+            L = ([f"exclude {m}"] if m else []) + ["cfg waitlimit=10 cblimit=100", "obj fd f0 sock", "obj fd f1 bad", "obj timer t0",
+                 "on f1.in * : rd f1", "on f1.out 2 : ?setout f1 0", "on f0.in * : rd f0", "on t0 1 : quit",
+                 "at 0 : wr f1 2", "at 2 : wr f1 1 ; wr f0 1",
+                 f"do reg f0 100 ; try f1 {Fa} ; heal f1 ; reg f1 {Fb} ; trel t0 30000000", "main"]
+            cases.append((f"reregister-{METHOD_NAME[m]}-{k}", L))
+    return cases
